@@ -219,7 +219,12 @@ def other_cases() -> list[tuple[str, str]]:
     eqs = [(sp.Eq(2 * x + 3, 7), x), (sp.Eq(k * x + m, 0), x), (x**2 - 4, x), (sp.Eq(x * y, k), y),
         (sp.Eq(VectorDot(a, b) * x, k), x), (sp.Eq(x / k + m * x, 1), x), (sp.Eq(sp.exp(x), k), x),
         (sp.Eq(VectorNorm(a) * x + VectorDot(a, c), 0), x), (sp.Eq(x**3, 8), x),
-        (sp.Eq(VectorNorm(a) * x, VectorNorm(b)), x), (sp.Eq(VectorNorm(a) * x**2, k), x)]
+        (sp.Eq(VectorNorm(a) * x, VectorNorm(b)), x), (sp.Eq(VectorNorm(a) * x**2, k), x),
+        # candidate roots that are poles or extraneous: they must not be returned
+        (VectorNorm(a) * (x**2 - 4) / (x + 2), x), (sp.Eq(VectorDot(a, b) / (x - 1), x * VectorDot(a,
+        b) / (x - 1)), x),
+        (k * (x**2 - 1) / (x - 1), x), (sp.Eq(sp.sqrt(x), -k), x),
+        (VectorDot(a, b) * (x - 3) * (x + 1) / (x - 3), x)]
     for i, (f, s) in enumerate(eqs):
         try:
             res = solve_for_scalar(f, s)
@@ -242,7 +247,7 @@ def other_cases() -> list[tuple[str, str]]:
                 val = c14.lib_eval(resid, c14._COMP)
             except Exception:
                 val = resid
-            if not R.is_zero(val):
+            if sp.sympify(val).has(sp.nan, sp.zoo, sp.oo, -sp.oo) or not R.is_zero(val):
                 ok = False
         out.append((f"scalar:{i}", "" if ok else f"solve_for_scalar({short(f)}, {s}) returned "
             f"{short(res)} which its own solution does not satisfy"))
